@@ -161,8 +161,26 @@ fn doc_for_toml() -> BoxedStrategy<Val> {
         }),
         1 => prop_oneof![scalar_strategy(Shape::COMMON_NULL), proptest::collection::vec(scalar_strategy(Shape::COMMON), 0..4).prop_map(Val::Seq)],
         2 => doc_strategy(EXT).prop_map(table_rooted),
+        // tables holding TOML date-times (they stay date-times from a TOML source;
+        // for the other sources they are strings)
+        2 => (doc_strategy(Shape { depth: 3, size: 10, ..Shape::COMMON }).prop_map(table_rooted), any::<u16>(), crate::checks::c06::datetime_strategy()).prop_map(|(v, i, dt)| {
+            let n = v.node_count();
+            let mut idx = if n < 2 { 0 } else { 1 + ((i as usize * (n - 1)) >> 16).min(n - 2) };
+            let mut hit_key = false;
+            let planted = plant(&v, &mut idx, &dt, &mut hit_key);
+            if hit_key { v } else { planted }
+        }),
     ]
     .boxed()
+}
+
+fn without_datetimes(v: &Val) -> Val {
+    match v {
+        Val::Datetime(s) => Val::Str(s.clone()),
+        Val::Seq(items) => Val::Seq(items.iter().map(without_datetimes).collect()),
+        Val::Map(m) => Val::Map(m.iter().map(|(k, x)| (without_datetimes(k), without_datetimes(x))).collect()),
+        other => other.clone(),
+    }
 }
 
 fn call_strategy() -> BoxedStrategy<Call> {
@@ -216,6 +234,13 @@ fn prepare_history(h: &History, rec: &mut Recorder) -> Option<Prepared> {
     let mut prepared: Prepared = vec![];
     for c in &h.calls {
         let mut spec = c.input.clone();
+        if spec.fmt != Fmt::Toml {
+            for d in spec.docs.iter_mut() {
+                d.v = without_datetimes(&d.v);
+            }
+        } else if spec.docs.first().map_or(false, |d| d.v.any(&|x| matches!(x, Val::Datetime(_)))) {
+            rec.class("toml_source_with_datetime");
+        }
         // a source format that cannot spell one of the documents is replaced by
         // MessagePack, which can spell them all (construction, not rejection)
         if spec.fmt == Fmt::Toml {
@@ -490,7 +515,7 @@ impl Check for C08 {
         vec![Unit::gen("history", 16, tier.pick(12_000, 100_000)), Unit::gen("paths", 8, tier.pick(150, 1500)), Unit::gen("cli", 8, tier.pick(150, 2500))]
     }
     fn required_classes(&self, _tier: Tier) -> Vec<&'static str> {
-        vec!["accepted_document", "refusable_document", "second_document_or_input", "unspecified_document", "refusal_at_depth", "calls:2", "calls:3", "paths:null", "paths:oversized_int", "paths:nonroot_key_null", "short_writes", "cli:all_translated", "cli:refused", "cli:later_input_after_accepted_document"]
+        vec!["accepted_document", "refusable_document", "second_document_or_input", "unspecified_document", "refusal_at_depth", "calls:2", "calls:3", "paths:null", "paths:oversized_int", "paths:nonroot_key_null", "short_writes", "toml_source_with_datetime", "cli:all_translated", "cli:refused", "cli:later_input_after_accepted_document"]
     }
     fn run_unit(&self, unit: &Unit, _shard: u32, seed: u64, _tier: Tier, rec: &mut Recorder) {
         match unit.name {
